@@ -56,6 +56,10 @@ def gen(rng, tier, index):
     jac_modes = ["callable"] * 7 + ["2-point", "3-point", None]
     cfg = draw_cfg(rng, jac_modes=jac_modes, allow_scaler=True)
     cfg["maxiter"] = int(rng.integers(3, 16))
+    if rng.random() < 0.3:
+        # a logger is attached and some display is requested (stop criteria may be reported there)
+        cfg["logger"] = str(choice(rng, ["collect", "collect", "failing"]))
+        cfg["iprint"] = int(choice(rng, [0, 1, 50, 99, 100, 101, 1000]))
     maybe_long(rng, spec, cfg)
     plan = {
         "problem": spec,
